@@ -273,7 +273,8 @@ def rich_history(rng: random.Random, version: str | None, length: int) -> list[l
         elif roll < 0.944:
             steps.append(["rebind"])
         elif roll < 0.95:
-            steps.append(["reenter", "transport-error"] if rng.random() < 0.5 else ["reenter"])
+            steps.append(rng.choice([["reenter", "transport-error"], ["reenter"], ["reenter", "connect-refused"],
+                                     ["reenter", "connect-cancelled"]]))
         elif roll < 0.97:
             text = rng.choice(["2.0.0", "2.1.1", "2.2.0", "1.5.0"])
             steps.append(["rx", f"0;255;3;0;2;{text}\n"])
